@@ -306,6 +306,15 @@ Definition host_call (k : hostkind) (args : list value) : res value :=
 
 Definition set_stk (m : mstate) (s : list value) : mstate := mkM s (menv m) (trace m) (polls m).
 Definition set_env (m : mstate) (e : env) : mstate := mkM (stk m) e (trace m) (polls m).
+
+(* Before every iteration of a foreach loop whatever its body left on the stack above the height the
+   loop remembered is discarded (vm.go: `for vm.stack.Size() > loops[len(loops)-1] { Pop }`). *)
+Definition keep_bottom (d : N) (s : list value) : list value := skipn (List.length s - N.to_nat d) s.
+Definition drop_residue (e : env) (s : list value) : list value :=
+  match env_mark e with
+  | Some d => keep_bottom d s
+  | None => s
+  end.
 Definition push (m : mstate) (v : value) : mstate := set_stk m (v :: stk m).
 
 Definition fail (m : mstate) (e : errclass) : outcome * mstate := (OErr e, m).
@@ -452,7 +461,8 @@ Fixpoint exec (fuel : nat) (code : list N) (ip : N) (m : mstate) {struct fuel} :
           end
       end end end)
   else if op =? OpIterationReset then
-    let e1 := env_push (menv m) in
+    (* the loop remembers how high the stack is once its iterator has been pushed *)
+    let e1 := env_push (menv m) (lenN (stk m)) in
     match stk m with
     | [] => fail (set_env m e1) EInternal
     | v :: s =>
@@ -461,7 +471,11 @@ Fixpoint exec (fuel : nat) (code : list N) (ip : N) (m : mstate) {struct fuel} :
     end
   else if op =? OpIterationNext then
     match stk m with
-    | vn :: idn :: it :: s =>
+    | vn :: idn :: rest =>
+      (* whatever the body of the loop left above the iterator is discarded *)
+      match drop_residue (menv m) rest with
+      | [] => fail m EInternal
+      | it :: s =>
         match it with
         | VIter v off =>
             match name_of vn, name_of idn, iter_next v off with
@@ -480,6 +494,7 @@ Fixpoint exec (fuel : nat) (code : list N) (ip : N) (m : mstate) {struct fuel} :
             end
         | _ => if iterable it then fail m ENeedOracle else fail m EScript
         end
+      end
     | _ => fail m EInternal
     end
   else if op =? OpRange then pop2 (fun b a s => on (vm_range a b) s)
